@@ -48,6 +48,8 @@ MENU = [
     ("qartod", "speed_test", dict(suspect_threshold=1, fail_threshold=3), False),   # a real test name, but of another module
     ("argo", "speed_test", dict(suspect_threshold=1, fail_threshold=3), True),
     ("other_pkg", "x_test", dict(a=1), False),
+    ("qartod", "rate_of_change_test", dict(threshold=1e-05), True),        # numbers that JSON spells with a bare exponent
+    ("vendor.checks", "some_test", dict(z=2e+16, w=[2e-07, 1]), False),    # unknown module with a dotted name
 ]
 WINDOWS = [None, dict(starting="2020-01-01T00:00:00", ending="2020-04-01T00:00:00"), dict(starting="2021-06-01T12:30:00"),
            dict(ending="2022-02-01T00:00:00"), dict(ending="2020-09-01T00:00:00", starting="2020-08-01T00:00:00")]  # ending only; ending written first
@@ -409,7 +411,7 @@ def asts(tier):
     for a, b in (([8], [9]), ([9], [8]), ([8, 9], [0]), ([0], [8, 9]), ([8], [1, 9])):
         yield dict(contexts=[dict(window=0, region=0, streams={"v1": a, "v2": b})], null="null")
     # one stream configured with tests of 4 and 5 different top-level modules (known and unknown ones)
-    for a in ([0, 4, 5, 7], [1, 4, 5, 7, 10], [0, 4, 7, 10], [5, 7, 10], [0, 1, 2, 3, 4, 5, 6, 7, 9, 10]):
+    for a in ([0, 4, 5, 7], [1, 4, 5, 7, 10], [0, 4, 7, 10], [5, 7, 10], [0, 1, 2, 3, 4, 5, 6, 7, 9, 10], [11, 12, 0], [12, 11], [6, 0, 1], [6, 11]):
         yield dict(contexts=[dict(window=0, region=0, streams={"v1": a})], null="null")
         yield dict(contexts=[dict(window=1, region=1, streams={"v1": a, "v2": [0]})], null="null")
     # one context with window / region
